@@ -1224,6 +1224,14 @@ fn check_mtree_case(ctx: &Ctx, progs: &Progs, c: &MCase, st: &mut Stats, verbose
         _ => "refused",
     };
     if shape {
+        // an answer of the wrong shape (a path that is shorter or longer than the depth operand) breaks the
+        // host contract, and the VM may refuse it in any way it likes - but a dishonest host is free to
+        // send it, so completing with an untrue result is a violation like any other
+        if verdict == "wrong" {
+            st.wrong += 1;
+            let kind = if valid { "wrong_result_accepted" } else { "false_claim_accepted" };
+            ctx.fail(json!({"kind": kind, "instr": c.instr.name(), "deviation": "answer_of_wrong_shape"}), descr, c.to_json());
+        }
         return MObs { out, verdict };
     }
     match verdict {
@@ -1392,8 +1400,9 @@ fn mtree_cases_for_tree(tier: Tier, leaves: &[W], a: &W, b: &W, x: &W) -> Vec<MC
                 }
             }
 
-            // host-contract *shape* violations (path of the wrong length): information only, thorough tier
-            if tier == Tier::Thorough {
+            // host-contract *shape* violations (path of the wrong length): refusing them in any way is fine
+            // (the outcome classes are recorded in the evidence), completing with an untrue result is not
+            {
                 let mut shapes: Vec<(Option<W>, Vec<W>)> = vec![];
                 if d >= 2 {
                     shapes.push((None, hpath[1..].to_vec())); // first element dropped
